@@ -237,6 +237,10 @@ func callResultList(v ssa.Value) (string, bool) {
 	if _, isSlice := c.Common().Signature().Results().At(0).Type().Underlying().(*types.Slice); !isSlice {
 		return "", false
 	}
+	// strings.Fields / FieldsFunc return an empty list for a blank input (strings.Split never does)
+	if sf, _ := calleeOf(c.Common()); sf != nil && fnPkgPath(sf) == "strings" && (sf.Name() == "Fields" || sf.Name() == "FieldsFunc") {
+		return "result of strings." + sf.Name(), true
+	}
 	var name string
 	if c.Common().IsInvoke() {
 		recv := c.Common().Value.Type().String()
@@ -294,9 +298,28 @@ func c20IndexGuard(w *World, r *Report) {
 		k   int64
 	}
 	var sites []site
+	type sliceSite struct {
+		fn  *ssa.Function
+		sl  *ssa.Slice
+		fld string
+		k   int64
+	}
+	var sliceSites []sliceSite
 	for _, fn := range w.HelmFuncs() {
+		if strings.HasSuffix(w.FileOf(fn), "_test.go") {
+			continue
+		}
 		for _, b := range fn.Blocks {
 			for _, in := range b.Instrs {
+				if sl, isSl := in.(*ssa.Slice); isSl && sl.Low != nil {
+					// x[k:] with k >= 1 needs len(x) >= k, like a read of element k-1
+					if k, isC := constInt(sl.Low); isC && k >= 1 {
+						if fld, ok := callResultList(sl.X); ok {
+							sliceSites = append(sliceSites, sliceSite{fn, sl, fld, k - 1})
+						}
+					}
+					continue
+				}
 				ia, ok := in.(*ssa.IndexAddr)
 				if !ok {
 					continue
@@ -361,7 +384,26 @@ func c20IndexGuard(w *World, r *Report) {
 		r.Fn(FuncName(s.fn))
 		r.Check(ok, "C20/INDEX-GUARD", key, w.InstrPos(s.ia), "the read is reached only where the list is long enough", "element "+fmt.Sprint(s.k)+" of "+s.fld+" is read without a length test of that list on every path: an empty list in the input panics")
 	}
+	for _, s := range sliceSites {
+		g := FullGraph(s.fn)
+		want := nf(s.sl.X, 0)
+		guard := lenAboveEdges(s.fn, func(v ssa.Value) bool { return v == s.sl.X || nf(v, 0) == want }, s.k)
+		ok := false
+		if len(guard) > 0 {
+			ex, _ := g.PathExists(entryPos(s.fn), posOf(s.sl), Avoid{}.withEdges(guard...))
+			ok = !ex
+		}
+		key := fmt.Sprintf("%s/%s[%d:]", FuncName(s.fn), s.fld, s.k+1)
+		seen[key]++
+		if seen[key] > 1 {
+			key = fmt.Sprintf("%s#%d", key, seen[key])
+		}
+		r.Fn(FuncName(s.fn))
+		r.Check(ok, "C20/INDEX-GUARD", key, w.InstrPos(s.sl), "the tail is taken only where the list is long enough", "the tail ["+fmt.Sprint(s.k+1)+":] of "+s.fld+" is taken without a length test of that list on every path: an empty list (a blank input) panics")
+	}
 }
+
+// (slice sites are checked at the end of c20IndexGuard)
 
 // c20ValidateLast: in the chart loader nothing decodes into the chart metadata after it was validated.
 func c20ValidateLast(w *World, r *Report) {
@@ -643,5 +685,61 @@ func c20RegularOnly(w *World, r *Report) {
 	}
 	if n == 0 {
 		r.Unk("C20/REGULAR-ONLY", "no-site", w.Pos(ld.Pos()), "the directory loader reads no file")
+	}
+}
+
+// c20HeaderSlice: the record decoder looks at the first bytes of a stored body only where the body is
+// known to be that long: a prefix b[:n] of the decoded bytes lies behind a test of len(b).
+func c20HeaderSlice(w *World, r *Report) {
+	r.Rule("C20/HEADER-SLICE", "in the release record decoder a fixed prefix of the decoded bytes (b[:n], b[0:n]) is taken only behind a test that len(b) is large enough", 0)
+	dec := w.Fn("pkg/storage/driver", "decodeRelease")
+	if dec == nil {
+		r.Unk("C20/HEADER-SLICE", "anchor", "-", "decodeRelease not found")
+		return
+	}
+	n := 0
+	for _, fn := range withAnon(dec) {
+		g := FullGraph(fn)
+		for _, b := range fn.Blocks {
+			for _, in := range b.Instrs {
+				sl, ok := in.(*ssa.Slice)
+				if !ok || sl.High == nil {
+					continue
+				}
+				st, isSl := sl.X.Type().Underlying().(*types.Slice)
+				if !isSl {
+					continue
+				}
+				if bt, ok := st.Elem().Underlying().(*types.Basic); !ok || bt.Kind() != types.Uint8 {
+					continue
+				}
+				n++
+				r.Fn(FuncName(fn))
+				want := nf(sl.X, 0)
+				isLen := func(v ssa.Value) bool {
+					c, ok := v.(*ssa.Call)
+					if !ok {
+						return false
+					}
+					bi, ok := c.Call.Value.(*ssa.Builtin)
+					return ok && bi.Name() == "len" && len(c.Call.Args) == 1 && (c.Call.Args[0] == sl.X || nf(c.Call.Args[0], 0) == want)
+				}
+				var guard []Edge
+				for _, e := range relEdges(fn, isLen, func(ssa.Value) bool { return true }) {
+					if e.Rel == token.GTR || e.Rel == token.GEQ {
+						guard = append(guard, e.Edge)
+					}
+				}
+				okG := false
+				if len(guard) > 0 {
+					ex, _ := g.PathExists(entryPos(fn), posOf(sl), Avoid{}.withEdges(guard...))
+					okG = !ex
+				}
+				r.Check(okG, "C20/HEADER-SLICE", fmt.Sprintf("%s/prefix#%d", FuncName(fn), n), w.InstrPos(sl), "the prefix is taken only behind a length test", "a prefix of the decoded record body is taken without a test of its length: an empty body (a stored object without the release entry) makes every read of that record panic instead of failing or being skipped")
+			}
+		}
+	}
+	if n == 0 {
+		r.OKTrivial("C20/HEADER-SLICE", "none", w.Pos(dec.Pos()), "the decoder takes no prefix of the decoded bytes")
 	}
 }
